@@ -73,3 +73,17 @@ class Lazy(Transform):
         s = torch.sigmoid(z)
         logabsdet = (-F.softplus(-z) - F.softplus(z)).sum(-1)
         return s, logabsdet
+
+
+class Widening(Transform):
+    def __init__(self):
+        super().__init__()
+        self.register_buffer("bound", torch.tensor(20.0))
+
+    def forward(self, inputs, context=None):
+        if self.training:
+            self.bound = torch.maximum(self.bound, inputs.detach().abs().max())
+        return inputs / self.bound, inputs.new_zeros(inputs.shape[0])
+
+    def inverse(self, inputs, context=None):
+        return inputs * self.bound, inputs.new_zeros(inputs.shape[0])
